@@ -24,6 +24,7 @@ type SpecEnv struct {
 	depth   int
 	nbound  int
 	renaming bool
+	cells    bool // names of captured variables of vc.fn's closure tree are in scope
 }
 
 func (e *SpecEnv) child() *SpecEnv {
@@ -37,7 +38,7 @@ func (e *SpecEnv) child() *SpecEnv {
 
 // entryEnv: environment of the function under verification at entry (params, free vars, ghosts).
 func (vc *VC) entryEnv() *SpecEnv {
-	env := &SpecEnv{vc: vc, pkg: vc.pkg, vars: map[string]Term{}, heap: vc.entryHeap, old: vc.entryHeap}
+	env := &SpecEnv{vc: vc, pkg: vc.pkg, vars: map[string]Term{}, heap: vc.entryHeap, old: vc.entryHeap, cells: true}
 	for _, p := range vc.fn.Params {
 		env.vars[p.Name()] = vc.vals[p]
 	}
@@ -220,8 +221,18 @@ func (e *SpecEnv) ident(name string) (Term, error) {
 	if t, ok := e.vars[name]; ok {
 		return t, nil
 	}
+	if e.cells && e.vc.fn.Parent() != nil {
+		if t, ok := e.vc.cellValue(name, e.heap); ok {
+			return t, nil
+		}
+	}
 	if e.resolve != nil {
 		if t, ok := e.resolve(name); ok {
+			return t, nil
+		}
+	}
+	if e.cells && e.vc.fn.Parent() == nil {
+		if t, ok := e.vc.cellValue(name, e.heap); ok {
 			return t, nil
 		}
 	}
